@@ -157,7 +157,11 @@ def run_case(c):
             p2 = {"hook": list(s.log), "a": list(a.log), "b": list(b.log)}
             s.detach(a)          # detaching what is not attached changes nothing
             n3 = len(s.listeners)
-            return {"p1": p1, "p2": p2, "listeners": [n1 - 1, n1, n3] if False else [1 if n1 == 2 else 0, n1, n3]}
+            s.log, a.log, b.log = [], [], []
+            s.attach(a)          # attached again after a detach: delivery resumes
+            s.play_Note(Note("G", 3)); s.stop_Note(Note("G", 3))
+            p3 = {"hook": list(s.log), "a": list(a.log), "b": list(b.log)}
+            return {"p1": p1, "p2": p2, "p3": p3, "listeners": [n1 - 1, n1, n3] if False else [1 if n1 == 2 else 0, n1, n3]}
         R.append(call("observers", {}, f))
     elif k == "ccfrac":
         # numbers that are no integers, given as fractions num/den: outside 0..128 they must be refused like integers are
